@@ -227,6 +227,7 @@ type areq struct {
 	Kind   string  `json:"kind"` // multi media path
 	Stream int     `json:"stream,omitempty"`
 	Query  []qitem `json:"query,omitempty"`
+	Enc    uint64  `json:"enc,omitempty"` // spelling of the raw query (rawQueryEnc); the decoded query is Query
 	PKind  string  `json:"pkind,omitempty"` // part seg
 	ID     uint64  `json:"id,omitempty"`
 }
@@ -249,7 +250,7 @@ func (d *driver) target(r areq) string {
 	case "media":
 		t := "/" + d.ids[r.Stream] + "_stream.m3u8"
 		if len(r.Query) > 0 {
-			t += "?" + rawQuery(r.Query)
+			t += "?" + rawQueryEnc(r.Query, r.Enc)
 		}
 		return t
 	default:
